@@ -263,7 +263,9 @@ func (adj *AdjRib) MarkLLGRStaleOrDrop(rfList []bgp.Family) []*Path {
 			} else {
 				n := p.Clone(false)
 				n.SetRejected(p.IsRejected())
-				n.SetCommunities([]uint32{uint32(bgp.COMMUNITY_LLGR_STALE)}, false)
+				if !p.IsLLGRStale() {
+					n.SetCommunities([]uint32{uint32(bgp.COMMUNITY_LLGR_STALE)}, false)
+				}
 				if p.IsRejected() {
 					d.knownPathList[i] = n
 				} else {
